@@ -24,6 +24,7 @@ OTHER = 99          # id of a party that holds previous gains but has no votes
 QUOTAS = ['hare', 'hare_rounded', 'droop', 'hagenbach_bischoff', 'hagenbach_bischoff_ceil',
           'hagenbach_bischoff_rounded', 'imperiali']
 POLICIES = ['error', 'ignore', 'subtract']
+INT_QUOTAS = ['droop', 'hare_rounded', 'hagenbach_bischoff_ceil', 'hagenbach_bischoff_rounded']
 
 REQUIRED = ['quota_textbook_hare', 'quota_textbook_hagenbach_bischoff', 'quota_textbook_imperiali', 'quota_textbook_droop',
             'quota_textbook_hagenbach_bischoff_ceil', 'quota_round_half_up', 'quota_textbook_hare_rounded',
@@ -43,7 +44,20 @@ REQUIRED_COUNTERS = ['policy_error', 'policy_ignore', 'policy_subtract', 'subtra
                      'cap_remainder_only', 'remainder_tie', 'accept_equal_edge', 'overaward_imperiali',
                      'overaward_hagenbach_bischoff', 'whole_exceeds_house', 'prev_nonzero', 'prev_other_party',
                      'constant_quota', 'beyond_2^53', 'fraction_votes', 'remainder_short', 'quota_fn',
-                     'quota_half', 'lr_plain', 'qd_plain', 'zero_vote_party', 'nonpositive_quota']
+                     'quota_half', 'lr_plain', 'qd_plain', 'zero_vote_party', 'nonpositive_quota',
+                     # generator audit (harness/GENERATOR_CHECKLIST.md)
+                     'mag:1e9', 'mag:2^53', 'mag:1e18', 'mag:1e30', 'near_tie_big',
+                     'tie_across_wholes', 'tie_across_wholes_big:droop', 'tie_across_wholes_big:hare_rounded',
+                     'tie_across_wholes_big:hagenbach_bischoff_ceil', 'tie_across_wholes_big:hagenbach_bischoff_rounded',
+                     'tie_across_wholes_big:constant', 'tie_multi_place', 'tie_3plus_members',
+                     'subtract_2plus_untied', 'subtract_tie_decrement', 'subtract_level_consumed',
+                     'overaward:hare_rounded', 'overaward:hagenbach_bischoff_rounded', 'overaward:hagenbach_bischoff_ceil',
+                     'overaward:constant', 'zero_vote_2plus', 'prev_covers_quotas', 'cap_and_prev_same_party',
+                     'names:int0', 'names:empty0', 'names:person',
+                     'quota_as:callable', 'quota_as:lambda', 'votes_all_fraction', 'fraction_zero_vote',
+                     'ctor_defaults', 'ctor_positional', 'call_positional', 'call_omit_empty',
+                     'same_object_twice', 'after_refusal', 'pre_with_prev_then_without', 'larger_then_smaller',
+                     'other_object_first']
 
 
 # ------------------------------------------------------------------------------------------------
@@ -133,6 +147,22 @@ class Spec:
         if len(below) + len(level) > over:
             res[('tie', tuple(sorted(level)))] = len(level) - (over - len(below))
         return {k: x for k, x in res.items() if x != 0}
+
+    def subtract_info(self):
+        """shape of the withdrawal: (over, tie?, withdrawals inside the tied level, a level of 2+ equal margins
+        withdrawn completely?)"""
+        over = self.T - self.n
+        if over <= 0 or over > sum(self.base.values()) or over > 5000:
+            return None
+        seats = sorted(self.v[c] - self.q * j for c in self.v
+                       for j in range(max(self.p[c] + 1, self.p[c] + self.base[c] - over + 1),
+                                      self.p[c] + self.base[c] + 1))
+        t = seats[over - 1]
+        below = [m for m in seats if m < t]
+        level = [m for m in seats if m == t]
+        tie = len(below) + len(level) > over
+        consumed = any(below.count(m) >= 2 for m in set(below)) or (not tie and len(level) >= 2)
+        return {'over': over, 'tie': tie, 'in_level': over - len(below), 'level': len(level), 'consumed': consumed}
 
     def whole_stage(self):
         """expected outcome of the whole-quota stage when no cap binds there: ('err', name) | ('ok', dict) | None"""
@@ -314,20 +344,70 @@ def signature(case, clause):
 # ------------------------------------------------------------------------------------------------
 # implementation side
 
-def _votes(case):
+def _votes_of(pairs, all_fraction=False):
     out = {}
-    for i, s in case['votes']:
-        f = Fraction(s)
-        out[NAMES.n(i)] = int(f) if f.denominator == 1 else f
+    for i, s_ in pairs:
+        f = Fraction(s_)
+        out[NAMES.n(i)] = f if (all_fraction or f.denominator != 1) else int(f)
     return out
 
 
-def _quota_arg(name):
+def _votes(case):
+    return _votes_of(case['votes'], (case.get('how') or {}).get('all_fraction', False))
+
+
+def _quota_arg(name, quota_as='name'):
+    """the quota as the caller may give it: registered name, the registered function object, a caller-written callable
+    (computing the textbook value: int when integral, else Fraction), quota.constant(int | Fraction)"""
     import votelib.component.quota as vq
+    if quota_as == 'lambda':
+        def own_quota(votes, seats):
+            x = textbook_quota(name, votes, seats)
+            return int(x) if x.denominator == 1 else x
+        return own_quota
     if name.startswith('const:'):
         f = Fraction(name[6:])
         return vq.constant(int(f) if f.denominator == 1 else f)
+    if quota_as == 'callable':
+        return vq.get(name)
     return name
+
+
+def _construct(cls, case, how):
+    import votelib.evaluate.proportional as vp
+    q = _quota_arg(case['quota'], how.get('quota_as', 'name'))
+    ae, pol = case['accept_equal'], case['on_overaward']
+    ctor = how.get('ctor', 'kwargs')
+    if ctor == 'positional' and cls is vp.QuotaDistributor:
+        return cls(q, ae, pol)
+    if ctor == 'defaults':                     # leave out every argument that equals its default
+        kw = {}
+        if ae is not True:
+            kw['accept_equal'] = ae
+        if pol != 'error':
+            kw['on_overaward'] = pol
+        if cls is vp.QuotaDistributor and q == 'droop':
+            return cls(**kw)
+        return cls(q, **kw)
+    return cls(q, accept_equal=ae, on_overaward=pol)
+
+
+def _call(ev, votes, n, prev, mx, how):
+    if how.get('call') == 'positional':
+        return ev.evaluate(votes, n, prev, mx)
+    if how.get('call') == 'omit_empty':        # rely on the mutable default arguments `prev_gains={}` / `max_seats={}`
+        kw = {}
+        if prev:
+            kw['prev_gains'] = prev
+        if mx:
+            kw['max_seats'] = mx
+        return ev.evaluate(votes, n, **kw)
+    return ev.evaluate(votes, n, prev_gains=prev, max_seats=mx)
+
+
+def _args(c, how):
+    return (_votes_of(c['votes'], how.get('all_fraction', False)), c['n'],
+            {NAMES.n(i): k for i, k in c.get('prev') or []}, {NAMES.n(i): k for i, k in c.get('max') or []})
 
 
 def impl(case):
@@ -337,15 +417,36 @@ def impl(case):
         f = Fraction(case['total'])
         tot = int(f) if f.denominator == 1 else f
         return guarded(lambda: num_str(vq.get(case['quota'])(tot, case['n'])))
-    votes = _votes(case)
-    prev = {NAMES.n(i): k for i, k in case.get('prev') or []}
-    mx = {NAMES.n(i): k for i, k in case.get('max') or []}
+    how = case.get('how') or {}
     cls = vp.QuotaDistributor if case['op'] == 'qd' else vp.LargestRemainder
 
     def run():
-        ev = cls(_quota_arg(case['quota']), accept_equal=case['accept_equal'], on_overaward=case['on_overaward'])
-        return enc_distribution(ev.evaluate(votes, case['n'], prev_gains=prev, max_seats=mx), NAMES)
+        other = how.get('other_first')
+        if other:                              # a differently configured object of the same class, used before ...
+            oc = dict(case, **other['config'])
+            try:
+                _call(_construct(cls, oc, {}), *_args(other['call'], {}), {})
+            except Exception:       # noqa
+                pass
+        ev = _construct(cls, case, how)
+        if other:                              # ... and another one built and used between construction and call
+            try:
+                _call(_construct(cls, oc, {}), *_args(other['call'], {}), {})
+            except Exception:       # noqa
+                pass
+        for pre in how.get('pre') or []:       # earlier calls on the SAME object; their outcome (also a refusal) is dropped
+            try:
+                _call(ev, *_args(pre, how), how)
+            except Exception:       # noqa
+                pass
+        return enc_distribution(_call(ev, *_args(case, how), how), NAMES)
     return guarded(run)
+
+
+def model_line(case):
+    c = strip_case(case)
+    c.pop('how', None)          # the model is a pure function of the request; `how` only varies the Python call
+    return c
 
 
 def compare(case, iobs, mobs):
@@ -372,13 +473,22 @@ def describe(case):
     mx = {NAMES.n(i): k for i, k in case.get('max') or []}
     q = case['quota']
     qa = f"quota.constant(Fraction('{q[6:]}'))" if q.startswith('const:') else repr(q)
+    how = case.get('how') or {}
     return (f"{cls}({qa}, accept_equal={case['accept_equal']}, on_overaward={case['on_overaward']!r})"
-            f".evaluate({_votes(case)!r}, {case['n']}, prev_gains={prev!r}, max_seats={mx!r})")
+            f".evaluate({_votes(case)!r}, {case['n']}, prev_gains={prev!r}, max_seats={mx!r})"
+            + (f"   # call variant: {json.dumps(how)}" if how else ''))
 
 
 def shrink_candidates(case):
     if case['op'] == 'quota':
         return
+    how = case.get('how') or {}
+    for key in list(how):
+        c = dict(case)
+        c['how'] = {k: v for k, v in how.items() if k != key}
+        if not c['how']:
+            del c['how']
+        yield c
     vs = case['votes']
     for i in range(len(vs)):
         if len(vs) > 1:
@@ -436,7 +546,7 @@ def _rand_vals(rng, m):
     if kind == 'mid':
         return [rng.randint(0, 1000) for _ in range(m)]
     if kind == 'big':
-        b = 10 ** rng.choice([16, 25, 30])
+        b = rng.choice([10 ** 9, 2 ** 53, 10 ** 16, 10 ** 18, 10 ** 25, 10 ** 30])
         return [b * rng.choice([1, 2, 3, 5]) + rng.choice([0, 0, 1, -1, 7]) for _ in range(m)]
     if kind == 'frac':
         return [Fraction(rng.randint(0, 60), rng.choice([1, 2, 3, 4])) for _ in range(m)]
@@ -606,15 +716,58 @@ def _tag(c):
             tags.append('cap_with_prev')
     if sp.house_binds:
         tags.append('whole_exceeds_house')
+    vmax = max(sp.v.values())
+    for name, lo, hi in (('mag:1e9', 10 ** 9, 10 ** 12), ('mag:2^53', 2 ** 53 - 1, 2 ** 55),
+                         ('mag:1e18', 10 ** 18, 10 ** 21), ('mag:1e30', 10 ** 30, 10 ** 33)):
+        if lo <= vmax < hi:
+            tags.append(name)
+    if sum(1 for x in sp.v.values() if x == 0) >= 2:
+        tags.append('zero_vote_2plus')
+    if any(sp.w[c_] > 0 and sp.p[c_] >= sp.w[c_] for c_ in sp.v):
+        tags.append('prev_covers_quotas')
+    if any(c_ in sp.cap and sp.p[c_] > 0 for c_ in sp.v):
+        tags.append('cap_and_prev_same_party')
+    how = c.get('how') or {}
+    if how.get('quota_as') in ('callable', 'lambda'):
+        tags.append('quota_as:' + how['quota_as'])
+    if how.get('all_fraction'):
+        tags.append('votes_all_fraction')
+        if any(x == 0 for x in sp.v.values()):
+            tags.append('fraction_zero_vote')
+    if how.get('ctor') in ('defaults', 'positional'):
+        tags.append('ctor_' + how['ctor'])
+    if how.get('call') in ('positional', 'omit_empty'):
+        tags.append('call_' + how['call'])
+    if how.get('pre'):
+        tags.append('same_object_twice')
+        for pre in how['pre']:
+            ps = Spec(dict(c, **pre))
+            if not ps.in_scope or (ps.T > ps.n and ps.policy == 'error'):
+                tags.append('after_refusal')
+            if any(k for _, k in pre.get('prev') or []) and not sp.prev:
+                tags.append('pre_with_prev_then_without')
+            if ps.in_scope and sum(ps.base.values()) > sum(sp.base.values()):
+                tags.append('larger_then_smaller')
+    if how.get('other_first'):
+        tags.append('other_object_first')
     if sp.T > sp.n:
         tags.append('policy_' + sp.policy)
         qn = c['quota']
         if qn in ('imperiali', 'hagenbach_bischoff'):
             tags.append('overaward_' + qn)
+        tags.append('overaward:' + ('constant' if qn.startswith('const:') else qn))
         if sp.policy == 'subtract':
             s = sp.subtract()
             if s and any(isinstance(k, tuple) for k in s):
                 tags.append('subtract_tie')
+            si = sp.subtract_info()
+            if si:
+                if si['over'] >= 2 and not si['tie'] and not si['consumed']:
+                    tags.append('subtract_2plus_untied')
+                if si['tie'] and si['in_level'] >= 2:
+                    tags.append('subtract_tie_decrement')
+                if si['consumed']:
+                    tags.append('subtract_level_consumed')
     else:
         if cls == 'plain':
             tags.append(c['op'] + '_plain')
@@ -623,10 +776,149 @@ def _tag(c):
             want, info = sp.remainder_stage(ws[1])
             if info['tie']:
                 tags.append('remainder_tie')
+                tk = [k for k in want if isinstance(k, tuple)][0]
+                if want[tk] >= 2:
+                    tags.append('tie_multi_place')
+                if len(tk[1]) >= 3:
+                    tags.append('tie_3plus_members')
+                if len({sp.base[m] + sp.p[m] for m in tk[1]}) >= 2:
+                    tags.append('tie_across_wholes')
+                    qn = c['quota']
+                    if vmax >= 10 ** 17 and (qn.startswith('const:') or qn in INT_QUOTAS):
+                        tags.append('tie_across_wholes_big:' + ('constant' if qn.startswith('const:') else qn))
             if info['r'] > len(info['elig']):
                 tags.append('remainder_short')
             if sp.cap and any(c_ in sp.cap and c_ not in info['elig'] for c_ in sp.v) and info['r'] > 0:
                 tags.append('cap_remainder_only')
+            # a near tie at the cut at a magnitude beyond 2^53: the last seated and the first unseated remainder
+            # differ by at most two votes
+            r, elig, rem = info['r'], info['elig'], info['rem']
+            if vmax > 2 ** 53 and 0 < r < len(elig):
+                srt = sorted(rem.values(), reverse=True)
+                if 0 < (srt[r - 1] - srt[r]) * sp.q <= 2:
+                    tags.append('near_tie_big')
+    return c
+
+
+_TIE_CACHE = {}
+
+
+def _tie_across(qn, Q):
+    """an lr case at magnitude Q in which parties with DIFFERENT whole-quota counts have exactly equal remainders at
+    the cut (integer-valued quota `qn`; Q is a multiple of 6).  Found by a small deterministic search over shapes
+    and seat counts, decided with the textbook quota; None when no shape works."""
+    key = (qn, Q)
+    if key in _TIE_CACHE:
+        return _TIE_CACHE[key]
+    h, t3 = Q // 2, Q // 3
+    shapes = [[1 * Q + h, 3 * Q + h, 2 * Q], [2 * Q + h, 4 * Q + h, Q + 5], [Q + 2 * t3, 3 * Q + 2 * t3, 2 * Q + 2 * t3],
+              [Q + t3, 2 * Q + t3, 4 * Q + t3], [Q + h, 2 * Q + h], [3 * Q + h - 1, Q + h - 1, 2 * Q + 2],
+              [Q + h + 1, 2 * Q + h + 1, 3 * Q - 2], [2 * Q + t3 - 1, Q + t3 - 1, 3 * Q + t3 - 1, 2]]
+    found = None
+    for vals in shapes:
+        for n in range(2, 16):
+            name = 'const:' + str(Q) if qn == 'constant' else qn
+            c = _mk('lr', vals, n, name, True, 'ignore')
+            sp = Spec(c)
+            if not sp.in_scope or sp.T > sp.n:
+                continue
+            want, info = sp.remainder_stage(sp.whole_stage()[1])
+            if info['tie']:
+                tk = [k for k in want if isinstance(k, tuple)][0]
+                if len({sp.base[m_] + sp.p[m_] for m_ in tk[1]}) >= 2:
+                    found = (vals, n, name)
+                    break
+        if found:
+            break
+    _TIE_CACHE[key] = found
+    return found
+
+
+def _directed_audit(rng, k):
+    """dimensions added by the generator audit (harness/GENERATOR_CHECKLIST.md)"""
+    pol = POLICIES[k % 3]
+    op = ['qd', 'lr'][(k // 3) % 2]
+    ae = (k // 6) % 2 == 0
+    X = [10 ** 9, 2 ** 53 - 1, 2 ** 53 + 1, 10 ** 18, 10 ** 30, 7][k % 6]
+    # exact remainder ties across different whole-quota counts, integer-valued quotas, at 6*10^17 / 6*10^29
+    for qn in INT_QUOTAS + ['constant']:
+        f = _tie_across(qn, 6 * 10 ** (17 if k % 2 == 0 else 29))
+        if f:
+            yield _mk('lr', f[0], f[1], f[2], ae, pol)
+    # magnitudes with a near tie: the remainder seat hangs on one vote
+    yield _mk('lr', [X + 1, X, X], 4, 'hare', ae, pol)
+    yield _mk('lr', [X, X + 1, X + 2, X], rng.choice([2, 5, 6]), rng.choice(['droop', 'hagenbach_bischoff', 'hare_rounded']), ae, pol)
+    yield _mk(op, [3 * X + 1, 2 * X, X - 1], rng.randint(2, 7), rng.choice(QUOTAS), ae, pol)
+    # 'subtract' withdrawing 2+ seats with pairwise different margins; a tie that is drawn on twice; a level of equal
+    # margins withdrawn completely before a later tie
+    x = rng.choice([1, 10, 10 ** 18])
+    yield _mk(op, [31 * x, 22 * x + 1, 13 * x + 2], rng.choice([3, 4]), 'const:' + str(10 * x), ae, 'subtract')
+    yield _mk(op, [50 * x + 3, 30 * x + 2, 20 * x + 1, 9 * x], 2, 'imperiali', ae, 'subtract')
+    yield _mk(op, [20 * x] * 3, 4, 'const:' + str(10 * x), ae, 'subtract')
+    yield _mk(op, [20 * x] * 3, 2, 'const:' + str(10 * x), ae, 'subtract')
+    yield _mk(op, [20 * x, 20 * x, 20 * x, 15 * x], 3, 'const:' + str(10 * x), ae, 'subtract')
+    # over-award under every quota that can over-award
+    yield _mk(op, [2, 2, 2, 1], 5, 'hare_rounded', ae, pol)
+    yield _mk(op, [2, 2, 2, 1], 4, 'hagenbach_bischoff_rounded', ae, pol)
+    yield _mk(op, [2 * x, 2 * x, 2 * x], 5, 'hagenbach_bischoff_ceil', ae, pol)
+    yield _mk(op, [25 * x, 25 * x + 1, 11 * x], 4, 'const:' + str(10 * x), ae, pol)
+    # two or more zero-vote parties; previous gains that cover (or exceed) all of a party's quotas; caps together with
+    # previous gains of the same party and of a party that has no votes
+    yield _mk(op, [5 * x, 0, 0, 3 * x], rng.randint(2, 6), rng.choice(QUOTAS), ae, pol)
+    yield _mk(op, [50 * x, 30 * x, 20 * x], 10, 'hare', ae, pol, {0: 5, 1: 4})
+    yield _mk(op, [50 * x, 30 * x, 20 * x], 10, 'droop', ae, pol, {0: rng.randint(4, 6), OTHER: 2}, {0: rng.randint(3, 6), 1: 2})
+    yield _mk('lr', [50 * x, 30 * x, 20 * x], 10, 'hare', ae, pol, {1: 1, 2: 2}, {1: 3, 2: 2})
+    # ties over several places and among 3+ parties
+    m = rng.randint(4, 6)
+    yield _mk('lr', [x] * m, m + rng.randint(2, m - 1), 'hare', ae, pol)
+    # how the evaluator is built and called
+    base = _mk(op, [47 * x, 16 * x, 37 * x, 0], rng.choice([5, 10]), rng.choice(QUOTAS), ae, pol)
+    for how in ({'quota_as': 'callable'}, {'quota_as': 'lambda'}, {'all_fraction': True}, {'ctor': 'defaults'},
+                {'ctor': 'positional'}, {'call': 'positional'}, {'call': 'omit_empty'}):
+        c = dict(base, _tags=[])
+        c['how'] = how
+        yield c
+    yield dict(_mk(op, [X, 3 * X, 2 * X, 0], 6, 'hare', ae, pol), how={'all_fraction': True})
+    yield dict(_mk('qd', [47 * x, 16 * x, 37 * x], 10, 'droop', True, 'error'), how={'ctor': 'defaults'})
+    yield dict(_mk(op, [60, 40], 2, 'const:' + rng.choice(['30', '61/2']), ae, pol), how={'quota_as': 'lambda'})
+    # the same object called twice: larger then smaller, after a refusal, previous gains first and then left out
+    small = _mk(op, [7 * x, 5 * x, 2 * x], 4, rng.choice(['hare', 'droop', 'imperiali']), ae, pol)
+    small['how'] = {'pre': [{'votes': [[0, num_str(70 * x)], [1, num_str(50 * x)], [2, num_str(20 * x)], [3, num_str(9 * x)]],
+                             'n': 12, 'prev': [], 'max': []}], 'call': 'omit_empty'}
+    yield small
+    ref = _mk(op, [50 * x, 30 * x, 20 * x], 10, 'hare', ae, 'error')
+    ref['how'] = {'pre': [{'votes': [[0, num_str(90 * x)], [1, num_str(10 * x)]], 'n': 3, 'prev': [[0, 2], [1, 2]], 'max': []},
+                          {'votes': [[0, '1']], 'n': 3, 'prev': [], 'max': []}]}
+    ref['quota'] = rng.choice(['hare', 'hare_rounded'])
+    yield ref
+    pw = _mk(op, [50 * x, 30 * x, 20 * x], 10, rng.choice(QUOTAS), ae, pol)
+    pw['how'] = {'pre': [{'votes': [[0, num_str(50 * x)], [1, num_str(30 * x)], [2, num_str(20 * x)]], 'n': 10,
+                          'prev': [[0, 3], [OTHER, 1]], 'max': [[1, 1]]}], 'call': 'omit_empty'}
+    yield pw
+    oth = _mk(op, [50 * x, 30 * x, 20 * x], 7, 'droop', ae, pol)
+    oth['how'] = {'other_first': {'config': {'quota': 'imperiali', 'accept_equal': not ae, 'on_overaward': 'ignore'},
+                                  'call': {'votes': [[0, num_str(9 * x)], [1, num_str(x)]], 'n': 2, 'prev': [], 'max': []}}}
+    yield oth
+
+
+def _vary_how(rng, c):
+    """random cases: every third one is built / called differently, every seventh one on a used object"""
+    how = {}
+    r = rng.random()
+    if r < 0.33:
+        if rng.random() < 0.5:
+            how['quota_as'] = rng.choice(['callable', 'lambda'])
+        if rng.random() < 0.3:
+            how['all_fraction'] = True
+        if rng.random() < 0.4:
+            how['ctor'] = rng.choice(['defaults', 'positional'])
+        if rng.random() < 0.4:
+            how['call'] = rng.choice(['positional', 'omit_empty'])
+    if rng.random() < 0.14:
+        o = _random_case(rng)
+        how['pre'] = [{'votes': o['votes'], 'n': o['n'], 'prev': o['prev'], 'max': o['max']}]
+    if how:
+        c['how'] = how
     return c
 
 
@@ -635,11 +927,15 @@ def generate(rng, tier):
     D = 12 if tier == 'quick' else 200
     Q = 300 if tier == 'quick' else 5000
     for k in range(D):
-        for c in _directed(rng, k):
+        for j, c in enumerate(itertools.chain(_directed(rng, k), _directed_audit(rng, k))):
             c['_tags'].append('directed')
+            mode = NAME_MODES[(k + j) % len(NAME_MODES)]          # every directed shape under every naming mode
+            if mode != 'str':
+                c['_names'] = mode
+                c['_tags'].append('names:' + mode)
             yield _tag(c)
     for _ in range(N):
-        yield _tag(_random_case(rng))
+        yield _tag(_vary_how(rng, _random_case(rng)))
     for c in _quota_cases(rng, Q):
         yield c
     if tier == 'thorough':
